@@ -614,6 +614,9 @@ class ConcListView:
             return z3.simplify(len(items) - len(hid) + sum(x.count for x in hid))
         return len(items)
 
+    def items_spec(self):
+        return [to_spec(self._ctx, self._heap, x) for x in self._heap[self._oid].fields['items']]
+
     def last(self, k=1):
         """k-th element from the end (1 = last)"""
         return to_spec(self._ctx, self._heap, self._heap[self._oid].fields['items'][-k])
@@ -764,7 +767,22 @@ def _rowseg_axioms(t):
             z3.Length(t) >= 0]
 
 
-AXIOMS = {'RowSeg': _rowseg_axioms, 'IsDigits': _isdigits_axioms, 'Find': _find_axioms, 'RFind': _find_axioms, 'ReFind': _refind_axioms, 'ReMatch': _rematch_axioms}
+def _joinlist_axioms(t):
+    """JoinList(sep, arr, n): '' for n <= 0; JoinList(.., n-1) ++ [sep] ++ arr[n-1] otherwise;
+    writing at an index >= n does not change it (frame)"""
+    sep, arr, n = t.arg(0), t.arg(1), t.arg(2)
+    prev = t.decl()(sep, arr, n - 1)
+    out = [z3.Implies(n <= 0, t == z3.StringVal('')),
+           z3.Implies(n == 1, t == z3.Select(arr, 0)),
+           z3.Implies(n > 1, t == z3.Concat(prev, sep, z3.Select(arr, n - 1)))]
+    if z3.is_app(arr) and arr.decl().kind() == z3.Z3_OP_STORE:
+        base, i = arr.arg(0), arr.arg(1)
+        out.append(z3.Implies(i >= n, t == t.decl()(sep, base, n)))
+        out.append(z3.Implies(i >= n - 1, prev == t.decl()(sep, base, n - 1)))       # frame for the unfolded prefix
+    return out
+
+
+AXIOMS = {'JoinList': _joinlist_axioms, 'RowSeg': _rowseg_axioms, 'IsDigits': _isdigits_axioms, 'Find': _find_axioms, 'RFind': _find_axioms, 'ReFind': _refind_axioms, 'ReMatch': _rematch_axioms}
 
 
 def collect_apps(f, names, out, seen):
